@@ -188,6 +188,46 @@ pub fn lj(input: &str, out: &str) {
             }
         }
     }
+    // the law has no length or energy scale of its own: the same cases in very small and very
+    // large units (argon in SI: sigma 3.4e-10 m, epsilon 1.65e-21 J); positions of the order of
+    // the distance itself, motions that keep the origin
+    let mut scaled = 0usize;
+    {
+        let f = BufReader::new(fs::File::open(input).expect("input"));
+        let gi = |v: &Value, k: &str| v[k].as_i64().unwrap_or(0) as f64;
+        'cases: for line in f.lines() {
+            let e: Value = match serde_json::from_str(&line.unwrap()) {
+                Ok(v) => v,
+                Err(_) => continue,
+            };
+            if e.get("k").is_some() || e.get("qa").is_none() {
+                continue;
+            }
+            let q = gi(&e, "qa") / gi(&e, "qb");
+            let qc = if gi(&e, "ca") == 0. { None } else { Some(gi(&e, "ca") / gi(&e, "cb")) };
+            let unit = gi(&e, "num") / gi(&e, "den") / (gi(&e, "en") / gi(&e, "ed"));
+            for (sigma, eps) in [(3.4e-10, 1.65e-21), (1e-5, 1.0), (1e5, 3.0), (2.5e-9, 1e-20)].iter() {
+                let r = sigma * q.powf(-1. / 6.);
+                let cutoff = qc.map(|c| sigma * c.powf(-1. / 6.));
+                let expect = unit * eps;
+                for (c, sn, flip) in [(1.0f64, 0.0f64, 1.0f64), (0.6, 0.8, 1.), (-5. / 13., 12. / 13., -1.)].iter() {
+                    let rot = |x: f64, y: f64| Point2::new(c * x - sn * y * flip, sn * x + c * y * flip);
+                    let a = LJ2 { position: rot(0., 0.), sigma: *sigma, epsilon: *eps, cutoff };
+                    let b = LJ2 { position: rot(r * 0.8, r * 0.6), sigma: *sigma, epsilon: *eps, cutoff };
+                    let (eab, eba) = (a.energy(&b), b.energy(&a));
+                    evaluations += 2;
+                    scaled += 1;
+                    // r is realised in floating point: 12 ulps of r are 1e-14 of the steep branch
+                    let tol = 1e-9 * f64::max(expect.abs(), *eps);
+                    if !((eab - expect).abs() <= tol) || !((eba - expect).abs() <= tol) {
+                        failures.push(json!({"what": "pair energy differs from the shifted truncated 12-6 law in other units",
+                            "state": e, "observed": {"sigma": sigma, "epsilon": eps, "r": r, "e_ab": eab, "e_ba": eba, "expected": expect}}));
+                        break 'cases;
+                    }
+                }
+            }
+        }
+    }
     // unlike particles: symmetric in the two particles, whatever the mixing rule
     let mut unlike = 0usize;
     let sig = [0.5, 1.0, 1.275112, 2.0];
@@ -218,7 +258,7 @@ pub fn lj(input: &str, out: &str) {
         }
     }
     let res = json!({"C13": {"checked": checked, "nontrivial": checked, "by_case": by_case, "molecule_cases": mol_cases,
-        "unlike_pairs": unlike, "evaluations": evaluations, "failures": failures.len(),
+        "unlike_pairs": unlike, "scaled_unit_cases": scaled, "evaluations": evaluations, "failures": failures.len(),
         "first_failures": failures.iter().take(10).collect::<Vec<_>>()}});
     let mut fo = fs::File::create(out).expect("out");
     writeln!(fo, "{}", res).unwrap();
